@@ -196,6 +196,40 @@ def regen_consts(ov, groups):
     return facts
 
 
+# ----------------------------------------------------------------------------- go2lean (DESIGN §12.7)
+# property -> modules of lean/Emitter/Generated/ written by tools/go2lean whose tie theorems (Props/Tie/*.lean) the
+# property's Props file imports
+GO2LEAN = {"C03": ["GoKey"], "C11": ["GoKey"], "C12": ["GoKey"], "C06": ["GoId"], "C19": ["GoId"], "C16": ["GoMqtt"]}
+
+
+def regen_go2lean():
+    """build tools/go2lean (default go, stdlib only) when its sources are newer than the binary, run it on REPO's
+    working tree (it rewrites lean/Emitter/Generated/Go*.lean only when their content changes) and return
+    {module: [(unit, lean name | None, refusal message | None)]}"""
+    src = os.path.join(VERIF, "tools", "go2lean")
+    out = os.path.join(WORK, "bin", "go2lean")
+    os.makedirs(os.path.dirname(out), exist_ok=True)
+    newest = max(os.path.getmtime(os.path.join(src, f)) for f in os.listdir(src) if f.endswith((".go", ".mod")))
+    if not os.path.exists(out) or os.path.getmtime(out) < newest:
+        rc, log = run(["go", "build", "-o", out, "."], cwd=src, env=GOENV, timeout=600)
+        if rc != 0:
+            raise BuildError("go build tools/go2lean failed", log)
+    p = subprocess.run([out, REPO, os.path.join(src, "targets.txt"), os.path.join(LEAN, "Emitter", "Generated")],
+                       stdout=subprocess.PIPE, stderr=subprocess.PIPE, timeout=120)
+    if p.returncode != 0:
+        raise BuildError("tools/go2lean failed", p.stderr.decode("utf-8", "replace"))
+    res = {}
+    for ln in p.stdout.decode("utf-8", "replace").splitlines():
+        m = re.match(r"ok (\S+) (.*) -> (\S+)$", ln)
+        if m:
+            res.setdefault(m.group(1), []).append((m.group(2), m.group(3), None))
+            continue
+        m = re.match(r"refused (\S+) (.*?): (.*)$", ln)
+        if m:
+            res.setdefault(m.group(1), []).append((m.group(2), None, m.group(3)))
+    return res
+
+
 # ----------------------------------------------------------------------------- Lean side
 
 def lake_build(targets):
